@@ -743,6 +743,10 @@ class Interp:
             return v
         if node.id == 'super':
             return Ext('super')
+        if node.id == '__name__':
+            return env.module.name
+        if node.id == '__file__':
+            return env.module.relpath
         if node.id in ('True', 'False', 'None'):  # pragma: no cover
             return {'True': True, 'False': False, 'None': None}[node.id]
         r = self.model.resolve(env.module, node.id)
